@@ -321,6 +321,19 @@ func c20Run(c *Ctx, idx int, rng *rand.Rand, sc *c20Scenario, dir string) {
 		_ = os.Chtimes(dirs[i], t, t)
 	}
 
+	if rng.Intn(4) == 0 {
+		// the receive log has a damaged day file in the window the cleaner searches: a run
+		// of NULs where a crash interrupted a write, 1-3 days back (no record is lost:
+		// nothing was delivered then)
+		day := time.Now().Add(-time.Duration(1+rng.Intn(3)) * 24 * time.Hour).Local()
+		p := filepath.Join(rs.LogDir, day.Format("200601"), day.Format("02"))
+		_ = os.MkdirAll(filepath.Dir(p), 0o755)
+		junk := append([]byte("x/never.dat:00000000000000000000000000000000:1:1600000000:\n"), make([]byte, 70000+rng.Intn(70000))...)
+		if os.WriteFile(p, junk, 0o644) == nil {
+			sc.Note = "damaged receive-log day file " + day.Format("20060102")
+			res.Count("scenarios_with_a_damaged_log_day_file", 1)
+		}
+	}
 	statusOf := func() map[string]int {
 		out := map[string]int{}
 		for _, it := range sc.Items {
